@@ -287,7 +287,7 @@ pub fn run(u: &mut Universe, b: &Batch, st: &mut Stats) {
                         }
                         // the step numbers after the move may belong to other calls than in the
                         // fault-free trace; what matters is "a resource fault somewhere later"
-                        for e in [libc::EMFILE, libc::ENOMEM] {
+                        for e in [libc::EMFILE, libc::ENOMEM, libc::ENAMETOOLONG] {
                             if !crate::sup::fault_catalogue(*nr2).iter().any(|f| matches!(f, crate::sup::Fault::Errno(x) if *x == e || *x == libc::ENFILE)) {
                                 continue;
                             }
